@@ -485,7 +485,6 @@ func ruleC12R6(w *World, r *Report) {
 	}
 }
 
-
 // constFlag: v is a boolean built from constants only (a phi of true/false, possibly negated).
 func constFlag(v ssa.Value, seen map[ssa.Value]bool) bool {
 	if seen[v] {
@@ -508,7 +507,6 @@ func constFlag(v ssa.Value, seen map[ssa.Value]bool) bool {
 	}
 	return false
 }
-
 
 // pieceConstructor: call is h(…, s, …, a, b) of a function of the module whose body is
 // `return &RawStatement{Pos: a, End: b, Statement: s[a:b]}` over its parameters; the fields of that literal in terms of
